@@ -110,12 +110,12 @@ class Inst:
             ch = [("a", "k", k)]
             if r() < 0.7:
                 ch.append(("a", "v", str(rng.choice(INT_POOL))))
-            if r() < 0.3:
-                ch.append(("a", "w", rng.choice(STR_POOL)))
+            if r() < 0.4:
+                ch.append(("a", "w", k if r() < 0.4 else rng.choice(STR_POOL)))
             if r() < 0.6:
                 inn = []
                 if r() < 0.7:
-                    inn.append(("a", "x", rng.choice(STR_POOL)))
+                    inn.append(("a", "x", k if r() < 0.3 else rng.choice(STR_POOL)))
                 if r() < 0.4:
                     inn.append(("a", "y", str(rng.choice(INT_POOL))))
                 ch.append(("a", "in", inn))
@@ -137,7 +137,7 @@ class Inst:
         for k in rng.sample([0, 1, 2, 5, 12, 50, 255], cnt(0, 5)):
             ch = [("a", "k", str(k))]
             if r() < 0.6:
-                ch.append(("a", "v", rng.choice(["2.5", "0.5", "-1.5", "3.0", "10.1"])))
+                ch.append(("a", "v", ("%d.0" % k) if r() < 0.3 else rng.choice(["2.5", "0.5", "-1.5", "3.0", "10.1"])))
             c.append(("a", "lu", ch))
         if r() < 0.3:
             c.append(("a", "np", [("a", "z", rng.choice(STR_POOL))] if r() < 0.7 else []))
@@ -588,6 +588,7 @@ class ExprGen:
         self.nodes = nodes
         self.prefixed = prefixed
         self.vals = [n.val for n in nodes if n.kind in "ft"] or [b"a"]
+        self.nums = sorted({n.val.decode() for n in nodes if n.kind in "ft" and re.fullmatch(rb"\d+(\.\d+)?", n.val)}) or ["1"]
 
     def name_test(self, under=None):
         rng = self.rng
@@ -623,7 +624,8 @@ class ExprGen:
         return ("lit", v)
 
     def number(self):
-        return ("num", self.rng.choice(NUM_LITS))
+        """a number literal; half of them values that occur in the tree (comparison boundaries)"""
+        return ("num", self.rng.choice(self.nums if self.rng.random() < 0.5 else NUM_LITS))
 
     def pred(self, depth, under=None):
         rng = self.rng
@@ -796,6 +798,10 @@ FIXED_EXPRS = [
     "/a:c/a:l2[a:k1='a'][a:k2=2]", "/a:c/a:l2[a:k2=2][a:k1='a']", "/a:c/a:l2[a:k1='a'][a:k2='02']", "/a:c/a:l2[a:k1='a'][a:k2='2.0']",
     "/a:c/a:l2[a:k1=5][a:k2=5]", "/a:c/a:l2[a:k1='5'][a:k2=5.0]", "/a:c/a:lu[a:k='05']", "/a:c/a:lu[a:k=5]", "/a:c/a:lu[a:k=5.0]",
     "/a:c/a:lu[a:k=5.5]", "/a:c/a:lu[a:k=true()]", "/a:c/a:lu[a:k='5'][1]", "/a:top[a:id=5]", "/a:top[a:id=true()]",
+    "/a:c/a:n <= 5", "/a:c/a:n >= 5", "/a:c/a:n < 5", "/a:c/a:n > 5", "5 <= /a:c/a:n", "5 >= /a:c/a:n", "5 < /a:c/a:n", "/a:c/a:l1/a:v <= 1",
+    "/a:c/a:l1/a:v >= 3", "/a:c/a:l1/a:v < 1", "/a:c/a:l1/a:v > 3", "3 <= /a:c/a:l1/a:v", "/a:c/a:lu/a:k <= 1", "/a:c/a:d <= 2.5", "/a:c/a:d < 2.5",
+    "sum(/a:c/a:lu/a:k)", "sum(/a:c/a:l1/a:k)", "sum(//a:v)", "sum(//a:k2)", "sum(/a:c/a:ln | /a:c/a:u | /a:c/a:n | /a:c/a:lu/a:k)",
+    "count(//a:k)", "/a:c/a:l1[a:k=a:w]", "/a:c/a:l1[a:k=a:in/a:x]", "/a:c/a:lu[a:k=a:v]", "/a:c/a:l2[a:k1=a:v][a:k2=1]", "/a:c/a:l2[a:k1='a'][a:k2=a:v]",
     "/a:c/a:ll[.=5]", "/a:c/a:ll[.='5']", "/a:c/a:ln[.='07']", "/a:c/a:ln[.=7]",
     "count(/a:c/a:l1 | /a:c/a:l1)", "/a:c/a:l1/a:k | /a:c/a:s | /a:c/a:l1", "/a:c/a:l1 | /", "count(/ | /a:c)",
     "name(/a:c/b:s)", "local-name(/a:c/b:s)", "name(/)", "name(/a:c/a:s/text())", "name(/a:c/*)", "local-name()", "name()",
@@ -831,6 +837,36 @@ FIXED_EXPRS = [
 ]
 
 
+NUM_PATHS = ["//a:v", "/a:c/a:ln", "/a:c/a:lu/a:k", "//a:val", "//a:k2", "/a:c/a:l1/a:v", "//b:m", "/a:c/a:lu/a:v", "//a:y",
+             "/a:c/a:l1/a:in/a:y", "/a:c/*", "//a:k", "/a:top/a:val"]
+KEY_DEP = ["/a:c/a:l1[a:k=a:w]", "/a:c/a:l1[a:k=a:in/a:x]", "/a:c/a:l1[a:k=a:t]", "/a:c/a:l1[a:k=b:v]", "/a:c/a:lu[a:k=a:v]",
+           "/a:c/a:l2[a:k1=a:v][a:k2=%s]", "/a:c/a:l2[a:k1=%s][a:k2=a:v]", "/a:top[a:id=a:val]", "/a:top[a:id=a:tc/a:z]",
+           "/a:c/a:l1[a:k=.//a:x]", "/a:c/a:l1[a:k=descendant::a:x]", "/a:c/a:l1[a:k=string(a:w)]", "/a:c/a:l1[a:k=position()]",
+           "/a:c/a:lu[a:k=last()]", "/a:c/a:lu[a:k=count(../a:lu)]", "/a:c/a:l1[a:k=../a:s]", "/a:c/a:l1[a:k=/a:tl]",
+           "/a:c/a:l1[a:k=../a:ll]", "/a:c/a:l1[a:k=../a:ll[1]]", "/a:c/a:lu[a:k=../a:u]", "/a:c/a:l1[a:k=current()]"]
+
+
+def targeted(rng, nodes, g):
+    """families aimed at boundaries: aggregates over numeric node-sets, relational operators against values that
+    occur in the tree, key predicates whose value depends on the list instance (must NOT be answered by one lookup)"""
+    k = rng.randrange(4)
+    if k == 0:
+        p = parse(rng.choice(NUM_PATHS))
+        return ("fn", rng.choice(["sum", "sum", "count"]), [p])
+    if k == 1:
+        p = parse(rng.choice(NUM_PATHS))
+        c = ("cmp", rng.choice(["<=", ">=", "<", ">", "=", "!="]), p, g.number())
+        return c if rng.random() < 0.6 else ("cmp", c[1], c[3], c[2])
+    if k == 2:
+        s = rng.choice(KEY_DEP)
+        if "%s" in s:
+            s = s % rng.choice(["1", "2", "'a'", "5"])
+        return parse(s)
+    p = parse(rng.choice(NUM_PATHS))
+    return ("step", p[1], p[2], p[3], p[4], [("cmp", rng.choice(["<=", ">=", "<", ">"]), ("step", ("ctx",), False, "self", ("any",), []),
+                                             g.number())])
+
+
 def nice_ctx(nodes, rng, k):
     """context nodes: root and a sample of nodes of every kind"""
     out = [-1]
@@ -854,10 +890,10 @@ def case_line(yang, xml, dump, ctx, e, text=None):
 
 FIXED_XML = ('<c xmlns="urn:a"><s>hello</s><n>5</n><d>2.50</d><u>12</u><ll>x</ll><ll>y</ll><ll>5.0</ll><ll>5</ll><ln>7</ln><ln>3</ln>'
              '<l1><k>5.0</k><v>1</v><in><x>q</x></in><t>t1</t><t>t2</t></l1><l1><k>b</k><v>2</v></l1>'
-             '<l1><k>c</k><v>3</v><w>ww</w><in><x>r</x><y>9</y></in><t>u</t></l1><l1><k>1e3</k></l1><l1><k>2</k><v xmlns="urn:b">bv</v></l1>'
+             '<l1><k>c</k><v>3</v><w>c</w><in><x>r</x><y>9</y></in><t>u</t></l1><l1><k>1e3</k><in><x>1e3</x></in></l1><l1><k>2</k><v xmlns="urn:b">bv</v></l1>'
              '<l1><k>12</k><in/></l1><l1><k>true</k></l1>'
              '<l2><k1>a</k1><k2>1</k2><v>v1</v></l2><l2><k1>a</k1><k2>2</k2><v>v2</v></l2><l2><k1>5</k1><k2>5</k2></l2>'
-             '<lu><k>5</k><v>2.5</v></lu><lu><k>1</k></lu><lu><k>12</k><v>0.5</v></lu>'
+             '<lu><k>5</k><v>2.5</v></lu><lu><k>1</k></lu><lu><k>12</k><v>12.0</v></lu><lu><k>3</k><v>0.5</v></lu>'
              '<s xmlns="urn:b">bs</s><bx xmlns="urn:b">BX</bx><bc xmlns="urn:b"><s>in</s><m>4</m></bc>'
              '</c><tl xmlns="urn:a">atl</tl><top xmlns="urn:a"><id>5</id><val>10</val></top><top xmlns="urn:a"><id>true</id><val>-3</val><tc><z>Z</z></tc></top>'
              '%s')
@@ -917,6 +953,8 @@ class XPathEval(Comp):
                 depth = rng.choice([1, 2, 2, 3, 3, 4])
                 if j % 17 == 16:
                     e = gu.path(0)                       # unprefixed names: paths without predicates only
+                elif j % 17 == 15:
+                    e = targeted(rng, nodes, g)
                 else:
                     e = g.expr(depth)
                 L.append(case_line(y, x, d, rng.choice(ctxs), e, render(e, abbrev=rng.random() < 0.7)))
@@ -953,6 +991,17 @@ class XPathEval(Comp):
                     self.reported.add(tg)
                     return (tg, detail + " [as coded: " + need + "]")
             return (tags[0], detail + " [as coded: " + need + "]")
+        if got == "CRASH" and " 1 attribute " in f[6]:
+            # "//@x": moveto_attr_alldesc() = moveto_node_alldesc_child() + moveto_union(): with nested context nodes the
+            # duplicate insertion / unsorted intermediate set hits the hash assert or the get_node_pos() restart
+            return ("xpath-attr-alldesc-crash", detail)
+        if impl_out == "CRASH(-6)" and "( text )" in f[6]:
+            # stale hash entries after xpath_pi_text(); modelled for a predicate directly on the text() step, other
+            # consumers that call set_sort() (string(), name(), union ...) are attributed by the syntax
+            return ("xpath-assert-text-hash", detail)
+        if " attribute " in f[6] and ("m" in got.split(":")[-1].split(",") or got.startswith(("F:", "B:", "S:"))):
+            # the only metadata in these trees is libyang's internal yang:lyds_tree (sorted (leaf-)lists)
+            return ("xpath-attr-internal-meta", detail)
         if "( name - " in f[6]:
             # unprefixed names: the code takes the module of the parent only on the hash-based child step and any
             # module elsewhere; not modelled as coded (needs the schema)
@@ -1113,6 +1162,16 @@ class XPathSan:
         detail = "XPath %r, context %s: %s" % (unhex(f[5]).decode("utf-8", "replace"), f[4], out)
         if "set_sort(set)" in err and "Assertion" in err:
             return ("xpath-assert-unsorted-child-step", detail)
+        if "Assertion" in err and ("lyht_find(set->ht" in err or ("set_insert_node_hash" in err and "`!r'" in err)):
+            if "( text )" in f[6]:
+                return ("xpath-assert-text-hash", detail)
+            if " 1 attribute " in f[6]:
+                return ("xpath-attr-alldesc-crash", detail)
+            return ("xpath-alldesc-duplicate", detail)
+        if "Assertion" in err and "moveto_resolve_model" in err:
+            return ("xpath-assert-step-on-non-nodeset", detail)
+        if "Assertion" in err and "moveto_axis_node_next_first" in err:
+            return ("xpath-assert-attribute-node", detail)
         if "get_node_pos" in err and ("SEGV" in err or "null pointer" in err or "member access within null" in err):
             return ("xpath-crash-sort-restart", detail)
         if "outside the range of representable values of type 'long long'" in err or \
